@@ -360,10 +360,23 @@ def observe_shown(graph):
     return "?", []
 
 
+ROOT_SPAN_RE = re.compile(r'<td class="root" rowspan="(\d+)"')
+
+
+def observe_span(graph, shown: str):
+    """table fall-back: (`rowspan` of the cell that holds the root, number of `<tr>` of the table); (0, 0) otherwise"""
+    if shown != "t":
+        return (0, 0)
+    text = str(graph)
+    m = ROOT_SPAN_RE.search(text)
+    return (int(m.group(1)) if m else -1, text.count("<tr>"))
+
+
 def observe(graph, tab: Table | None):
     """canonical observation of one FortranGraph object"""
     nodes, edges = parse_dot(graph.dot.source)
     shown, rows = observe_shown(graph)
+    span = observe_span(graph, shown)
     name = (lambda s: tab.ids.get(s, s)) if tab else (lambda s: s)
     key = lambda x: (isinstance(x, str), x)  # noqa
     ekey = lambda e: tuple(key(x) for x in e)  # noqa
@@ -379,6 +392,7 @@ def observe(graph, tab: Table | None):
         "shown": shown, "rows": rows, "file": f"{graph.imgfile}.gv", "nroots": len(graph.root),
         "edge_labels": sorted((t, h, lb) for t, h, _, lb in edges if lb is not None),
         "node_labels": parse_dot_node_labels(graph.dot.source),
+        "span": span,
     }
 
 
@@ -445,7 +459,7 @@ def observe_nodes(gm, tab: Table):
 
 
 def parse_model_graph(field: str):
-    label, added, edges, trunc, hopn, hope, shown, rows, rows_alt = field.split("|")
+    label, added, edges, trunc, hopn, hope, shown, rows, rows_alt, span, trs = field.split("|")
     rl = lambda rs: [(int(r.split(":")[0]), r.split(":")[1]) for r in rs.split(",")] if rs else []  # noqa
     nl = lambda s: sorted(int(x) for x in s.split(",")) if s else []  # noqa
 
@@ -459,7 +473,7 @@ def parse_model_graph(field: str):
 
     return label, {"added": nl(added), "edges": el(edges), "truncated": int(trunc),
                    "hop_nodes": nl(hopn), "hop_edges": el(hope), "shown": shown,
-                   "rows": rl(rows), "rows_alt": rl(rows_alt)}
+                   "rows": rl(rows), "rows_alt": rl(rows_alt), "span": (int(span), int(trs))}
 
 
 def parse_model_data(field: str):
@@ -475,12 +489,12 @@ def parse_model_data(field: str):
     return {int(x) for x in created.split(",")} if created else set(), ll(fwd), ll(inv)
 
 
-VARIANT = {"call_count": "asis", "bound_root": "asis", "table_rows": "asis"}   # decided at run time by `decide_variant`
+VARIANT = {"call_count": "asis", "bound_root": "asis", "table_rows": "asis", "root_span": "asis"}   # decided at run time by `decide_variant`
 
 
 def model_request(tab: Table, order: list[int]) -> list[str]:
     variant = VARIANT["call_count"] + ("+b" if VARIANT["bound_root"] == "fixed" else "") \
-        + ("+t" if VARIANT["table_rows"] == "fixed" else "")
+        + ("+t" if VARIANT["table_rows"] == "fixed" else "") + ("+r" if VARIANT["root_span"] == "fixed" else "")
     return ["c13.all", variant, ",".join(str(x) for x in order)] + [Table.encode(r) for r in tab.rows]
 
 
@@ -510,6 +524,14 @@ def decide_variant(ford, d: Path):
     rows = [observe_shown(p.calledbygraph)[1] for p in project.procedures if p.name == "p0"]
     # (a tree that shows something else here is judged by the witness case itself, as the code as it is)
     VARIANT["table_rows"] = "fixed" if rows and {n for n, _ in rows[0]} == {"p0", "p1", "p2"} else "asis"
+    # Which list gives the rowspan of the root's cell in the table fall-back?  Observed on the witness of
+    # C13-table-rootspan (type t1 extends t0 and has a component of type t0, graph_maxnodes 1: one node, two edges in
+    # the refused hop): `asis` spans 2 * 1 + 1 rows, `fixed` (fixes/C13-table-rootspan.diff) 2 * 2 + 1.
+    files, opts = WITNESSES[ROOT_SPAN]
+    with common.quiet():
+        project, gm, _ = build(ford, d, files, opts)
+    spans = [observe_span(t.inhergraph, "t") for t in project.types if t.name == "t1"]
+    VARIANT["root_span"] = "fixed" if spans and spans[0] == (5, 4) else "asis"
     return dict(VARIANT)
 
 
@@ -541,6 +563,9 @@ def compare(tab: Table, node_obs, obs: dict, resp: list[str]) -> list[str]:
                  for k in ("rows", "rows_alt")]
         if sorted(tuple(r) for r in o["rows"]) not in mrows:
             diffs.append(f"{label}: rows of the table: model {mrows[0]} or {mrows[1]} impl {sorted(tuple(r) for r in o['rows'])}")
+        if tuple(m["span"]) != tuple(o["span"]):
+            diffs.append(f"{label}: table fall-back (rowspan of the root's cell, number of <tr>): model {tuple(m['span'])} "
+                         f"impl {tuple(o['span'])}")
         if m["added"] != o["dot_nodes"]:
             diffs.append(f"{label}: DOT nodes {o['dot_nodes']} differ from model added {m['added']}")
     created, fwd, inv = node_obs
@@ -1459,6 +1484,7 @@ def norm_edges(S: Spec, cls: str, edges):
 GF_DEP = "C13-graph-false-dependency"
 BOUND_LEAF = "C13-binding-to-hidden-not-root"
 TABLE_LOOP = "C13-table-self-loop"
+ROOT_SPAN = "C13-table-rootspan"
 BY_LAZY = "C13-by-graph-misses-unregistered"
 
 
@@ -1523,6 +1549,66 @@ def short_name(ident: str) -> str:
     return ident.split("~", 1)[1] if "~" in ident else ident
 
 
+def label_scopes(A: Abs, S: Spec) -> dict:
+    """ident of a procedure -> name of the scope it is declared in (only where the abstract project says it
+    directly: procedures of modules, submodules and programs, internal procedures)"""
+    out = {}
+    for m in A.mods:
+        for p in m["procs"] + m.get("mpimpls", []):
+            out[f"proc~{p['name']}"] = m["name"]
+    for sm in A.subs:
+        for p in sm["impls"]:
+            out[f"proc~{p['name']}"] = sm["name"]
+    for g in A.progs:
+        for p in g["procs"]:
+            out[f"proc~{p['name']}"] = g["name"]
+    for ident, hident in S.internal_of.items():
+        out[ident] = short_name(hident)
+    return out
+
+
+def judge_node_labels(A: Abs, S: Spec, o: dict, scopes: dict, known_procs: set):
+    """The text a node carries (documented: the entity's name; `show_proc_parent: true` puts the name of the scope a
+    procedure is declared in and `::` in front of it - and only that option does; a type-bound procedure is
+    written `type%name`).  -> why | None"""
+    sp = bool(A.opts.get("show_proc_parent"))
+    for ident, lb in o["node_labels"].items():
+        if lb is None:
+            return f"the node {ident} has no label"
+        kind = S.kind.get(ident)
+        if kind in ("m", "s", "t", "g", "f", "d"):
+            if lb != short_name(ident):
+                return f"the node {ident} is labelled {lb!r}, documented: its name"
+        elif ident in known_procs:
+            if lb.split("::")[-1].split("%")[-1] != short_name(ident):
+                return f"the procedure node {ident} is labelled {lb!r}: not its name"
+            if ("::" in lb) != sp:
+                return (f"the procedure node {ident} is labelled {lb!r} with show_proc_parent={sp}: the scope is shown "
+                        f"exactly when the option is on")
+            if sp and ident in scopes and lb.split("::")[0] != scopes[ident]:
+                return f"the procedure node {ident} is labelled {lb!r}, it is declared in {scopes[ident]}"
+        elif "::" in lb and not sp:
+            return f"the node {ident} is labelled {lb!r} although show_proc_parent is off"
+    return None
+
+
+def judge_span(cls: str, root: str, o: dict):
+    """The table fall-back of a graph whose rows are the documented ones: the cell that holds the root spans all the
+    rows of the table ("the root node takes up one column and spans all rows"): every row is written beside the root,
+    none below it.  -> (None | text, finding id | None)"""
+    if o["shown"] != "t":
+        return None, None
+    span, trs = o["span"]
+    if trs <= span <= trs + 1 and trs == 2 * len(o["rows"]):
+        return None, None
+    # class of C13-table-rootspan: more kept edges than kept nodes (two relations to one entity, an edge from the
+    # root to itself), and the span is the one computed from the nodes
+    fid = ROOT_SPAN if (len(o["hop_edges"]) > len(o["hop_nodes"]) and span == 2 * len(o["hop_nodes"]) + 1
+                        and trs == 2 * len(o["hop_edges"])) else None
+    return (f"table of the {cls} graph of {root}: {len(o['rows'])} rows ({trs} <tr>), the cell of the root spans "
+            f"{span} of them"), fid
+
+
 def judge_shown(S: Spec, root: str, cls: str, o: dict, cache: dict):
     """How the graph appears on its page (`__str__`), judged for a graph whose content is the documented one:
     nothing when there is nothing but the entity itself (or the roots alone exceed the node limit); the table
@@ -1565,7 +1651,7 @@ def judge_shown(S: Spec, root: str, cls: str, o: dict, cache: dict):
 
     want, rows, free = expect(succ)
     if agrees(want, rows, free):
-        return None, None
+        return judge_span(cls, root, o)
     by_class = root != "proj" and cls in ("usedby", "inheritedby", "calledby", "afferent")
     loop = lambda sc: by_class and any(t == h for _, (t, h, _) in sc(roots[0]))  # noqa
     fid = None
@@ -1650,8 +1736,13 @@ def oracle(A: Abs, S: Spec, obs: dict, saved: dict | None = None):
             if ident not in S.graph_false and not has:
                 fails.append((f"{ident}:{cls}", "documented entity has no graph object", None))
     cache, cache2 = {}, {}
+    scopes = label_scopes(A, S)
+    known_procs = {ident for ident, k in S.kind.items() if k in ("p", "i", "b", "n")} | {i for _, i in S.procs.values()}
     for label, o in sorted(obs.items()):
         root, cls = label.rsplit(":", 1)
+        w = judge_node_labels(A, S, o, scopes, known_procs)
+        if w:
+            fails.append((label, w, None))
         # no dangling edge
         nodes = set(o["dot_nodes"])
         for t, h, s in o["edges"]:
@@ -1719,7 +1810,9 @@ def names_obs(obs: dict, tab: Table) -> dict:
             "dot_nodes": [nm(x) for x in o["dot_nodes"]], "added": [nm(x) for x in o["added"]],
             "edges": [(nm(t), nm(h), s) for t, h, s in o["edges"]], "truncated": o["truncated"],
             "shown": o["shown"], "rows": o["rows"], "file": o["file"], "nroots": o["nroots"],
-            "edge_labels": o["edge_labels"], "node_labels": o["node_labels"],
+            "edge_labels": o["edge_labels"], "node_labels": o["node_labels"], "span": o["span"],
+            "hop_nodes": [nm(x) for x in o["hop_nodes"]],
+            "hop_edges": [(nm(t), nm(h), st) for t, h, st in o["hop_edges"]],
         }
     return out
 
@@ -2103,6 +2196,9 @@ WITNESSES = {
                   "  subroutine p0()\n    type(t0) :: v0\n    call v0%b0()\n  end subroutine p0\n"
                   "  subroutine h0()\n    call p1()\n  end subroutine h0\n"
                   "  subroutine p1()\n  end subroutine p1\nend module m0\n"}, {}),
+    "C13-table-rootspan": (
+        {"a.f90": "module m0\n  type :: t0\n    integer :: i\n  end type t0\n  type, extends(t0) :: t1\n"
+                  "    type(t0) :: c0\n  end type t1\nend module m0\n"}, {"graph_maxnodes": 1}),
     "C13-table-self-loop": (
         {"a.f90": "module m0\ncontains\n  subroutine p0()\n    call p0()\n  end subroutine p0\n"
                   "  subroutine p1()\n    call p0()\n  end subroutine p1\n"
@@ -2130,6 +2226,10 @@ def witness_abs(fid: str) -> Abs:
         p0 = dict(pr("p0", []), calls=[("tb", "v0", "b0")], locals=[("v0", "t0")])
         A.mods = [dict(mk("m0", procs=[p0, dict(pr("h0", ["p1"]), private=True, bound=True), pr("p1", [])]),
                        types=[dict(name="t0", extends=None, comps=[], binds=[("b0", "h0")], generics=[], meta={})])]
+    elif fid == "C13-table-rootspan":
+        ty = lambda n, ext, comps: dict(name=n, extends=ext, comps=comps, binds=[], generics=[], meta={})  # noqa
+        A.mods = [dict(mk("m0"), types=[ty("t0", None, []), ty("t1", "t0", [("c0", "t0", False)])])]
+        A.opts = {"graph_maxnodes": 1}
     elif fid == "C13-table-self-loop":
         A.mods = [mk("m0", procs=[pr("p0", ["p0"]), pr("p1", ["p0"]), pr("p2", ["p0"])])]
         A.opts = {"graph_maxnodes": 1}
@@ -2247,9 +2347,9 @@ def run(tier: str, seed: int, replay: str | None = None) -> int:
     n_micro = 6000 if tier == "quick" else 60000
 
     # SVG rendering (graphviz `dot`, not part of the observation) is done for real on every
-    # 16th project only (thorough: every 8th; one `dot` process per graph, ~60 per project, is what the wall
+    # 32nd project only (round 6: was every 16th; thorough: every 8th; one `dot` process per graph, ~60 per project, is what the wall
     # time of this check consists of on a loaded machine); the DOT source is what is compared.
-    real_every = 16 if tier == "quick" else 8
+    real_every = 32 if tier == "quick" else 8
     import graphviz
     real_pipe = graphviz.Digraph.pipe
     fake_pipe = lambda self, *a, **k: b'<svg width="10pt" height="10pt"></svg>'  # noqa
@@ -2295,7 +2395,8 @@ def run(tier: str, seed: int, replay: str | None = None) -> int:
             variants = decide_variant(ford, d / "v")
             rep.coverage["variant_decided"] = {"CallGraph node counting": variants["call_count"],
                                                "bound procedures as call-graph roots": variants["bound_root"],
-                                               "side shown by the table fall-back": variants["table_rows"]}
+                                               "side shown by the table fall-back": variants["table_rows"],
+                                               "rowspan of the root's cell in the table fall-back": variants["root_span"]}
             CHUNK = 64      # the model answers the requests of this many projects in one run of the driver
             for k0 in range(0, len(cases), CHUNK):
                 results = []
@@ -2378,6 +2479,10 @@ def run(tier: str, seed: int, replay: str | None = None) -> int:
         "C07 / C08 state it; an internal procedure is shown only with proc_internals and has no graphs of its own",
         "the order of the edges inside a hop is not modelled: for the table fall-back, which looks at the first edge, "
         "the model answers for both relevant orders (self-loops of the root first / last)",
+        "labels (round 6): the label of a procedure node is modelled from what ProcNode.__init__ reads (self.name as "
+        "BaseNode.__init__ left it, the names of the scope and of the binding type); the names themselves, URLs and "
+        "colours are on the implementation side.  The label oracle checks the scope prefix only for procedures whose "
+        "scope the abstract project states directly (module, submodule, program, host procedure)",
         "which graphs get a file in graph_dir at all is not judged (output completeness): FORD writes those that show "
         "more than their roots, except the `uses` graphs of procedures; `dot` itself is not run for these files",
     ]
